@@ -976,80 +976,3 @@ package readline
 //@ func (*Shell).editCommandLine
 //@   props C01
 //@   requires fullok(rl) && histready(rl)
-
-// sixth batch (sweep)
-//@ func (*Shell).viEditAndExecuteCommand
-//@   props C01
-//@   requires fullok(rl) && histready(rl) && callerok(rl)
-//@ func (*Shell).viEditCommandLine
-//@   props C01
-//@   requires fullok(rl) && histready(rl) && callerok(rl)
-//@ func (*Shell).endOfFile
-//@   props C01
-//@   requires fullok(rl) && histready(rl) && callerok(rl)
-//@ func (*Shell).backwardDeleteChar
-//@   props C01
-//@   requires fullok(rl) && histready(rl) && callerok(rl)
-//@ func (*Shell).overwriteMode
-//@   props C01
-//@   requires fullok(rl) && histready(rl) && callerok(rl)
-//@ func (*Shell).viVisualMode
-//@   props C01
-//@   requires fullok(rl) && histready(rl) && callerok(rl)
-//@ func (*Shell).viVisualLineMode
-//@   props C01
-//@   requires fullok(rl) && histready(rl) && callerok(rl)
-//@ func (*Shell).viSubstitute
-//@   props C01
-//@   requires fullok(rl) && histready(rl) && callerok(rl)
-//@ func (*Shell).viChangeTo
-//@   props C01
-//@   requires fullok(rl) && histready(rl) && callerok(rl)
-//@ func (*Shell).viReplace
-//@   props C01
-//@   requires fullok(rl) && histready(rl) && callerok(rl)
-//@ func (*Shell).doLowercaseVersion
-//@   props C01
-//@   requires fullok(rl) && histready(rl) && callerok(rl)
-//@ func (*Shell).macroRun
-//@   props C01
-//@   requires fullok(rl) && histready(rl) && callerok(rl)
-//@ func (*Shell).macroToggleRecord
-//@   props C01
-//@   requires fullok(rl) && histready(rl) && callerok(rl)
-//@ func (*Shell).printLastKeyboardMacro
-//@   props C01
-//@   requires fullok(rl) && histready(rl) && callerok(rl)
-//@ func (*Shell).quotedInsert
-//@   props C01
-//@   requires fullok(rl) && histready(rl) && callerok(rl)
-//@ func (*Shell).viEOFMaybe
-//@   props C01
-//@   requires fullok(rl) && histready(rl) && callerok(rl)
-//@ func (*Shell).viDownLineOrHistory
-//@   props C01
-//@   requires fullok(rl) && histready(rl) && callerok(rl)
-//@ func (*Shell).upLineOrSearch
-//@   props C01
-//@   requires fullok(rl) && histready(rl) && callerok(rl)
-//@ func (*Shell).downLineOrSelect
-//@   props C01
-//@   requires fullok(rl) && histready(rl) && callerok(rl)
-//@ func (*Shell).clearScreen
-//@   props C01
-//@   requires fullok(rl) && histready(rl) && callerok(rl)
-//@ func (*Shell).clearDisplay
-//@   props C01
-//@   requires fullok(rl) && histready(rl) && callerok(rl)
-//@ func (*Shell).insertComment
-//@   props C01
-//@   requires fullok(rl) && histready(rl) && callerok(rl)
-//@ func (*Shell).viMatchBracket
-//@   props C01
-//@   requires fullok(rl) && histready(rl) && callerok(rl)
-//@ func (*Shell).quoteRegion
-//@   props C01
-//@   requires fullok(rl) && histready(rl) && callerok(rl)
-//@ func (*Shell).abort
-//@   props C01
-//@   requires fullok(rl) && histready(rl) && callerok(rl)
